@@ -174,8 +174,9 @@ Qed.
 (* ------------------------------------------------------------------ joining two rings *)
 Lemma is_edge_true o e : is_edge o e = true <-> o = Some e.
 Proof.
-  unfold is_edge. destruct o as [x|]; [|split; [discriminate|discriminate]].
-  destruct (Nat.eqb_spec x e); split; intros H; try congruence. inversion H. contradiction.
+  unfold is_edge. destruct o as [x|]; [|split; discriminate].
+  destruct (Nat.eqb_spec x e) as [-> | N]; split; intros H; try reflexivity; try discriminate.
+  inversion H. contradiction.
 Qed.
 
 (* the two edges of a coupled OutRec *)
@@ -288,3 +289,260 @@ Proof.
              destruct Hs as [Hs | Hs]; inversion Hs; congruence.
         -- exists oj. split; [rewrite Nj by assumption; exact Hj|exact Hs].
 Qed.
+
+(* ------------------------------------------------------------------ AddLocalMaxPoly, all cases *)
+Theorem add_local_max_poly_wf s e1 e2 p s' :
+  wf s -> e1 <> e2 -> add_local_max_poly s e1 e2 p = Some s' ->
+  wf s' /\ eo s' e1 = None /\ eo s' e2 = None.
+Proof.
+  intros W Hne H.
+  pose proof H as H0. unfold add_local_max_poly in H.
+  destruct (eo s e1) as [i1|] eqn:E1; [|discriminate]. destruct (eo s e2) as [i2|] eqn:E2; [|discriminate].
+  destruct (nth_error (recs s) i1) as [o1|] eqn:N1; [|discriminate].
+  destruct (nth_error (recs s) i2) as [o2|] eqn:N2; [|discriminate].
+  destruct (Bool.eqb (is_edge (fe o1) e1) (is_edge (fe o2) e2)) eqn:Hs; [discriminate|].
+  apply Bool.eqb_false_iff in Hs.
+  destruct (Nat.eq_dec i1 i2) as [<- | Hi].
+  - destruct (close_ring_wf s e1 e2 p s' i1 W E1 E2 Hne H0) as (Wf & C1 & C2 & _). auto.
+  - destruct (add_out_pt s e1 p) as [s1|] eqn:A; [|discriminate].
+    pose proof (add_out_pt_wf s e1 p s1 W A) as W1.
+    destruct (add_out_pt_spec s e1 p s1 A) as (i' & o' & D' & E' & N' & P' & He & R).
+    rewrite E1 in E'. inversion E'; subst i'. rewrite N1 in N'. inversion N'; subst o'.
+    pose proof (nth_error_lt _ _ _ N1) as Hlt1.
+    set (o1' := mkO (Some (push (is_edge (fe o1) e1) D' p)) (fe o1) (be o1)) in *.
+    assert (M1 : nth_error (recs s1) i1 = Some o1')
+      by (rewrite R; apply nth_error_set_nth_same, Hlt1).
+    assert (M2 : nth_error (recs s1) i2 = Some o2) by (rewrite R, nth_error_set_nth_other by exact Hi; exact N2).
+    assert (F1 : eo s1 e1 = Some i1) by (rewrite He; exact E1).
+    assert (F2 : eo s1 e2 = Some i2) by (rewrite He; exact E2).
+    destruct (Nat.eqb i1 i2) eqn:Q; [apply Nat.eqb_eq in Q; contradiction|].
+    destruct (Nat.ltb i1 i2).
+    + destruct (join_wf s1 e1 e2 i1 i2 o1' o2 s' W1 F1 F2 Hi M1 M2) as (Wf & C1 & C2); auto.
+      unfold o1'; cbn [fe]. destruct (is_edge (fe o1) e1), (is_edge (fe o2) e2); cbn; congruence.
+    + destruct (join_wf s1 e2 e1 i2 i1 o2 o1' s' W1 F2 F1) as (Wf & C2 & C1); auto.
+      unfold o1'; cbn [fe]. destruct (is_edge (fe o1) e1), (is_edge (fe o2) e2); cbn; congruence.
+Qed.
+
+(* ------------------------------------------------------------------ SwapOutrecs = renaming the two edges *)
+Section Swap.
+  Variables e1 e2 : eid.
+  Hypothesis Hne : e1 <> e2.
+
+  Definition sw (x : eid) : eid := if Nat.eqb x e1 then e2 else if Nat.eqb x e2 then e1 else x.
+
+  Lemma sw_e1 : sw e1 = e2. Proof. unfold sw. rewrite Nat.eqb_refl. reflexivity. Qed.
+  Lemma sw_e2 : sw e2 = e1.
+  Proof. unfold sw. rewrite Nat.eqb_refl. destruct (Nat.eqb_spec e2 e1); [congruence|reflexivity]. Qed.
+  Lemma sw_other x : x <> e1 -> x <> e2 -> sw x = x.
+  Proof. intros A B. unfold sw. destruct (Nat.eqb_spec x e1); [contradiction|]. destruct (Nat.eqb_spec x e2); [contradiction|reflexivity]. Qed.
+  Lemma sw_invol x : sw (sw x) = x.
+  Proof.
+    destruct (Nat.eq_dec x e1) as [-> | A]; [rewrite sw_e1, sw_e2; reflexivity|].
+    destruct (Nat.eq_dec x e2) as [-> | B]; [rewrite sw_e2, sw_e1; reflexivity|].
+    rewrite (sw_other x A B). apply (sw_other x A B).
+  Qed.
+  Lemma sw_inj x y : sw x = sw y -> x = y.
+  Proof. intros H. rewrite <- (sw_invol x), <- (sw_invol y), H. reflexivity. Qed.
+
+  Definition ren (o : outrec) : outrec := mkO (pts o) (option_map sw (fe o)) (option_map sw (be o)).
+
+  (* a state that is the renaming of a well-formed state is well formed *)
+  Lemma renamed_wf s s' : wf s ->
+    (forall j, nth_error (recs s') j = option_map ren (nth_error (recs s) j)) ->
+    (forall x, eo s' x = eo s (sw x)) -> wf s'.
+  Proof.
+    intros [W1 W2] HR HE. split.
+    - intros j o' Nj. rewrite HR in Nj. destruct (nth_error (recs s) j) as [o|] eqn:N; [|discriminate].
+      inversion Nj; subst o'. specialize (W1 j o N). unfold rec_ok in *. cbn [ren pts fe be].
+      destruct (pts o) as [D|].
+      + destruct W1 as [HD Hc]. split; [exact HD|].
+        destruct Hc as [[F B] | (a & b & Fa & Bb & Hab & Ea & Eb)].
+        * left. rewrite F, B. auto.
+        * right. exists (sw a), (sw b). rewrite Fa, Bb. repeat split; auto.
+          -- intros E. apply Hab, sw_inj, E.
+          -- rewrite HE, sw_invol. exact Ea.
+          -- rewrite HE, sw_invol. exact Eb.
+      + destruct W1 as [F B]. rewrite F, B. auto.
+    - intros x j Hx. rewrite HE in Hx. destruct (W2 (sw x) j Hx) as (o & N & Hs).
+      exists (ren o). split; [rewrite HR, N; reflexivity|].
+      cbn [ren fe be]. destruct Hs as [Hs | Hs]; rewrite Hs; cbn [option_map]; rewrite sw_invol; auto.
+  Qed.
+
+  (* in a well-formed state an edge named by an OutRec points back to it *)
+  Lemma edge_of_rec s j o x : wf s -> nth_error (recs s) j = Some o -> fe o = Some x \/ be o = Some x -> eo s x = Some j.
+  Proof.
+    intros [W1 _] N Hs. specialize (W1 j o N). unfold rec_ok in W1.
+    destruct (pts o) as [D|].
+    - destruct W1 as [_ [[F B] | (a & b & Fa & Bb & _ & Ea & Eb)]]; [destruct Hs; congruence|].
+      rewrite Fa, Bb in Hs. destruct Hs as [Hs | Hs]; inversion Hs; subst; assumption.
+    - destruct W1 as [F B]. destruct Hs; congruence.
+  Qed.
+
+  Lemma ren_untouched s j o : wf s -> nth_error (recs s) j = Some o -> eo s e1 <> Some j -> eo s e2 <> Some j -> ren o = o.
+  Proof.
+    intros W N H1 H2. destruct o as [P F B]. unfold ren. cbn [pts fe be]. f_equal.
+    - destruct F as [x|]; [|reflexivity]. cbn [option_map]. f_equal. apply sw_other; intros ->.
+      + apply H1. apply (edge_of_rec s j _ e1 W N). left. reflexivity.
+      + apply H2. apply (edge_of_rec s j _ e2 W N). left. reflexivity.
+    - destruct B as [x|]; [|reflexivity]. cbn [option_map]. f_equal. apply sw_other; intros ->.
+      + apply H1. apply (edge_of_rec s j _ e1 W N). right. reflexivity.
+      + apply H2. apply (edge_of_rec s j _ e2 W N). right. reflexivity.
+  Qed.
+
+  (* an OutRec that has e (and not the other edge) among its two edges: swap_side is the renaming *)
+  Lemma swap_side_ren s i o e e' : wf s -> nth_error (recs s) i = Some o -> eo s e = Some i -> eo s e' <> Some i ->
+    (e = e1 /\ e' = e2) \/ (e = e2 /\ e' = e1) -> swap_side o e e' = ren o.
+  Proof.
+    intros W N He He' Hee.
+    destruct (hot_has_pts s e i W He) as (o' & D & N' & P & _ & _). rewrite N in N'. inversion N'; subst o'.
+    destruct (coupled_edges s i o D W N P e He) as (a & b & Fa & Bb & Hab & Ea & Eb & Hx).
+    assert (Swe : sw e = e') by (destruct Hee as [[-> ->] | [-> ->]]; [apply sw_e1|apply sw_e2]).
+    assert (Hfix : forall x, eo s x = Some i -> x <> e -> sw x = x).
+    { intros x Hxi Hxe. apply sw_other; destruct Hee as [[-> ->] | [-> ->]]; auto; intros ->; congruence. }
+    unfold swap_side, ren. destruct o as [P0 F0 B0]. cbn [pts fe be] in *. subst F0 B0.
+    destruct Hx as [-> | ->].
+    - assert (T : is_edge (Some a) a = true) by (apply is_edge_true; reflexivity). rewrite T. cbn [option_map].
+      rewrite Swe, (Hfix b Eb) by (intros E; apply Hab; symmetry; exact E). reflexivity.
+    - assert (T : is_edge (Some a) b = false).
+      { destruct (is_edge (Some a) b) eqn:Q; [|reflexivity]. apply is_edge_true in Q. inversion Q. contradiction. }
+      rewrite T. cbn [option_map]. rewrite Swe, (Hfix a Ea) by exact Hab. reflexivity.
+  Qed.
+
+  Theorem swap_outrecs_wf s : wf s -> (eo s e1 <> None \/ eo s e2 <> None) -> wf (swap_outrecs s e1 e2).
+  Proof.
+    intros W Hhot. apply (renamed_wf s); [exact W| |].
+    - (* the OutRec list *)
+      intros j. unfold swap_outrecs.
+      destruct (eo s e1) as [i1|] eqn:E1, (eo s e2) as [i2|] eqn:E2; cbn [recs].
+      + destruct (Nat.eqb_spec i1 i2) as [<- | Hi].
+        * (* both edges of one OutRec *)
+          destruct (hot_has_pts s e1 i1 W E1) as (o & D & N & P & _ & _). rewrite N. cbn [recs].
+          destruct (coupled_edges s i1 o D W N P e1 E1) as (a & b & Fa & Bb & Hab & Ea & Eb & Hx1).
+          destruct (coupled_edges s i1 o D W N P e2 E2) as (a' & b' & Fa' & Bb' & _ & _ & _ & Hx2).
+          rewrite Fa in Fa'. inversion Fa'; subst a'. rewrite Bb in Bb'. inversion Bb'; subst b'.
+          assert (Hr : mkO (pts o) (be o) (fe o) = ren o).
+          { unfold ren. rewrite Fa, Bb. cbn [option_map].
+            destruct Hx1 as [H1 | H1], Hx2 as [H2 | H2]; try subst a; try subst b; try congruence; rewrite ?sw_e1, ?sw_e2; reflexivity. }
+          rewrite Hr. destruct (Nat.eq_dec i1 j) as [<- | Hj].
+          -- rewrite nth_error_set_nth_same by (apply (nth_error_lt _ _ _ N)). rewrite N. reflexivity.
+          -- rewrite nth_error_set_nth_other by exact Hj.
+             destruct (nth_error (recs s) j) as [oj|] eqn:Nj; [|reflexivity]. cbn [option_map]. f_equal. symmetry.
+             apply (ren_untouched s j oj W Nj); rewrite ?E1, ?E2; congruence.
+        * destruct (hot_has_pts s e1 i1 W E1) as (o1 & D1 & N1 & _). destruct (hot_has_pts s e2 i2 W E2) as (o2 & D2 & N2 & _).
+          rewrite N1. rewrite nth_error_set_nth_other by exact Hi. rewrite N2.
+          rewrite (swap_side_ren s i1 o1 e1 e2 W N1 E1) by (rewrite ?E2; auto; congruence).
+          rewrite (swap_side_ren s i2 o2 e2 e1 W N2 E2) by (rewrite ?E1; auto; congruence).
+          cbn [recs].
+          destruct (Nat.eq_dec i2 j) as [<- | Hj2].
+          -- rewrite nth_error_set_nth_same by (rewrite set_nth_length; apply (nth_error_lt _ _ _ N2)). rewrite N2. reflexivity.
+          -- rewrite nth_error_set_nth_other by exact Hj2.
+             destruct (Nat.eq_dec i1 j) as [<- | Hj1].
+             ++ rewrite nth_error_set_nth_same by (apply (nth_error_lt _ _ _ N1)). rewrite N1. reflexivity.
+             ++ rewrite nth_error_set_nth_other by exact Hj1.
+                destruct (nth_error (recs s) j) as [oj|] eqn:Nj; [|reflexivity]. cbn [option_map]. f_equal. symmetry.
+                apply (ren_untouched s j oj W Nj); rewrite ?E1, ?E2; congruence.
+      + destruct (hot_has_pts s e1 i1 W E1) as (o1 & D1 & N1 & _). rewrite N1. cbn [recs].
+        rewrite (swap_side_ren s i1 o1 e1 e2 W N1 E1) by (rewrite ?E2; auto; congruence).
+        destruct (Nat.eq_dec i1 j) as [<- | Hj1].
+        * rewrite nth_error_set_nth_same by (apply (nth_error_lt _ _ _ N1)). rewrite N1. reflexivity.
+        * rewrite nth_error_set_nth_other by exact Hj1.
+          destruct (nth_error (recs s) j) as [oj|] eqn:Nj; [|reflexivity]. cbn [option_map]. f_equal. symmetry.
+          apply (ren_untouched s j oj W Nj); rewrite ?E1, ?E2; congruence.
+      + destruct (hot_has_pts s e2 i2 W E2) as (o2 & D2 & N2 & _). rewrite N2. cbn [recs].
+        rewrite (swap_side_ren s i2 o2 e2 e1 W N2 E2) by (rewrite ?E1; auto; congruence).
+        destruct (Nat.eq_dec i2 j) as [<- | Hj2].
+        * rewrite nth_error_set_nth_same by (apply (nth_error_lt _ _ _ N2)). rewrite N2. reflexivity.
+        * rewrite nth_error_set_nth_other by exact Hj2.
+          destruct (nth_error (recs s) j) as [oj|] eqn:Nj; [|reflexivity]. cbn [option_map]. f_equal. symmetry.
+          apply (ren_untouched s j oj W Nj); rewrite ?E1, ?E2; congruence.
+      + destruct Hhot; congruence.
+    - (* the edge -> OutRec map *)
+      intros x. unfold swap_outrecs.
+      destruct (eo s e1) as [i1|] eqn:E1, (eo s e2) as [i2|] eqn:E2; cbn [eo].
+      + destruct (Nat.eqb_spec i1 i2) as [<- | Hi].
+        * destruct (nth_error (recs s) i1); cbn [eo];
+            (destruct (Nat.eq_dec x e1) as [-> | A]; [rewrite sw_e1; congruence|];
+             destruct (Nat.eq_dec x e2) as [-> | B]; [rewrite sw_e2; congruence|]; rewrite sw_other by assumption; reflexivity).
+        * cbn [eo]. destruct (Nat.eq_dec x e2) as [-> | B]; [rewrite upd_same, sw_e2; symmetry; exact E1|].
+          rewrite upd_other by exact B.
+          destruct (Nat.eq_dec x e1) as [-> | A]; [rewrite upd_same, sw_e1; symmetry; exact E2|].
+          rewrite upd_other, sw_other by assumption. reflexivity.
+      + destruct (Nat.eq_dec x e2) as [-> | B]; [rewrite upd_same, sw_e2; symmetry; exact E1|].
+        rewrite upd_other by exact B.
+        destruct (Nat.eq_dec x e1) as [-> | A]; [rewrite upd_same, sw_e1; symmetry; exact E2|].
+        rewrite upd_other, sw_other by assumption. reflexivity.
+      + destruct (Nat.eq_dec x e2) as [-> | B]; [rewrite upd_same, sw_e2; symmetry; exact E1|].
+        rewrite upd_other by exact B.
+        destruct (Nat.eq_dec x e1) as [-> | A]; [rewrite upd_same, sw_e1; symmetry; exact E2|].
+        rewrite upd_other, sw_other by assumption. reflexivity.
+      + destruct Hhot; congruence.
+  Qed.
+End Swap.
+
+(* ------------------------------------------------------------------ all valid operation sequences *)
+(* what the engine guarantees when it calls these primitives: AddLocalMinPoly only on two different cold edges;
+   the other operations on two different edges (the model's [step] itself is undefined where the C++ would
+   dereference a null pointer: AddOutPt / AddLocalMaxPoly on a cold edge, SwapOutrecs on two cold edges) *)
+Definition valid_op (s : st) (o : op) : Prop :=
+  match o with
+  | OMin e1 e2 _ _ => eo s e1 = None /\ eo s e2 = None
+  | _ => True
+  end.
+
+Theorem step_wf s o s' : wf s -> valid_op s o -> step s o = Some s' -> wf s'.
+Proof.
+  intros W V H. destruct o as [e1 e2 p sw | e p | e1 e2 p | e1 e2]; cbn [step valid_op] in *.
+  - destruct (Nat.eqb_spec e1 e2) as [|Hne]; [discriminate|]. inversion H; subst. destruct V as [C1 C2].
+    apply add_local_min_poly_wf; assumption.
+  - apply (add_out_pt_wf s e p s' W H).
+  - destruct (Nat.eqb_spec e1 e2) as [|Hne]; [discriminate|].
+    destruct (add_local_max_poly_wf s e1 e2 p s' W Hne H) as [Wf _]. exact Wf.
+  - destruct (Nat.eqb_spec e1 e2) as [|Hne]; [discriminate|].
+    destruct (eo s e1) eqn:E1, (eo s e2) eqn:E2; try discriminate; inversion H; subst;
+      apply swap_outrecs_wf; auto; rewrite ?E1, ?E2; auto; [left|left|right]; discriminate.
+Qed.
+
+Fixpoint valid_trace (s : st) (ops : list op) : Prop :=
+  match ops with
+  | [] => True
+  | o :: t => valid_op s o /\ match step s o with Some s' => valid_trace s' t | None => True end
+  end.
+
+Theorem run_wf : forall ops s s', wf s -> valid_trace s ops -> run s ops = Some s' -> wf s'.
+Proof.
+  induction ops as [|o ops IH]; intros s s' W V H; cbn [run valid_trace] in *.
+  - inversion H; subst. exact W.
+  - destruct V as [Vo Vt]. destruct (step s o) as [s1|] eqn:S; [|discriminate].
+    apply (IH s1 s' (step_wf s o s1 W Vo S) Vt H).
+Qed.
+
+Corollary reachable_wf ops s : valid_trace init ops -> run init ops = Some s -> wf s.
+Proof. intros V H. apply (run_wf ops init s wf_init V H). Qed.
+
+(* and in a well-formed state the primitives are defined exactly where the engine uses them *)
+Theorem add_local_max_poly_defined s e1 e2 i1 i2 o1 o2 p :
+  wf s -> e1 <> e2 -> eo s e1 = Some i1 -> eo s e2 = Some i2 ->
+  nth_error (recs s) i1 = Some o1 -> nth_error (recs s) i2 = Some o2 ->
+  is_edge (fe o1) e1 <> is_edge (fe o2) e2 ->
+  exists s', add_local_max_poly s e1 e2 p = Some s'.
+Proof.
+  intros W Hne E1 E2 N1 N2 Hs.
+  unfold add_local_max_poly. rewrite E1, E2, N1, N2.
+  destruct (Bool.eqb (is_edge (fe o1) e1) (is_edge (fe o2) e2)) eqn:Q; [apply Bool.eqb_prop in Q; contradiction|].
+  destruct (add_out_pt_defined s e1 i1 W E1 p) as [s1 A]. rewrite A.
+  pose proof (add_out_pt_wf s e1 p s1 W A) as W1.
+  destruct (add_out_pt_spec s e1 p s1 A) as (i' & o' & D' & E' & N' & P' & He & R).
+  rewrite E1 in E'. inversion E'; subst i'.
+  assert (F1 : eo s1 e1 = Some i1) by (rewrite He; exact E1).
+  assert (F2 : eo s1 e2 = Some i2) by (rewrite He; exact E2).
+  destruct (hot_has_pts s1 e1 i1 W1 F1) as (p1 & D1 & M1 & P1 & _ & _).
+  destruct (hot_has_pts s1 e2 i2 W1 F2) as (p2 & D2 & M2 & P2 & _ & _).
+  destruct (Nat.eqb i1 i2).
+  - rewrite M1, P1. eexists. reflexivity.
+  - destruct (Nat.ltb i1 i2); unfold join; rewrite F1, F2, M1, M2, P1, P2; eexists; reflexivity.
+Qed.
+
+Example wf_nonvacuous :
+  let ops := [OMin 0 1 (0, 10)%Z false; OMin 2 3 (10, 10)%Z false; OAdd 0 (0, 5)%Z; OSwap 1 2; OMax 2 1 (5, 0)%Z] in
+  valid_trace init ops /\ exists s, run init ops = Some s.
+Proof. cbv zeta. split; [cbn; repeat split; reflexivity|eexists; vm_compute; reflexivity]. Qed.
